@@ -161,7 +161,35 @@ func Scenario(c Cfg) {
 		consume("l", l, c.Stop)
 		consume("r", r, c.Stop2)
 	case "foreach":
+		if c.Mode == "lift" || c.Mode == "try" {
+			// a visitor that fails on the masked elements: ForEach has no error channel, every element is still visited once
+			consume("done", fork.ForEach(ctx, c.Par, in, lift()), -1)
+			break
+		}
 		consume("done", fork.ForEach(ctx, c.Par, in, fork.Pure(func(x int) int { env.Log("call", x); env.Yield(); return x })), -1)
+	case "map2":
+		// one F value used by two stages: the second one runs over elements that never fail and must not be affected
+		// by the failures the first one has seen
+		f := lift()
+		out, exx := fork.Map(ctx, c.Par, in, f)
+		consume("got", out, c.Stop)
+		errs(c, exx)
+		in2 := make(chan int, c.InCap)
+		go func() {
+			for i := range c.Input {
+				in2 <- 33 + i
+			}
+			close(in2)
+		}()
+		out2, exx2 := fork.Map(ctx, c.Par, in2, f)
+		consume("gotb", out2, -1)
+		env.WatchClosed("errb", exx2)
+		go func() {
+			for e := range exx2 {
+				env.Log("errb", e.Error())
+			}
+			env.Log("errb-eof")
+		}()
 	case "void":
 		consume("done", fork.Void(ctx, c.Par, in), -1)
 	case "fold":
